@@ -151,7 +151,7 @@ ClimTspans == IF Big THEN ClimTspansAll
               ELSE { m \in ClimTspansAll : m.period \in {"", "month", "week", "dayofyear"} }
 ClimMembers ==
     { [tspan |-> ts.tspan, period |-> ts.period, vspan |-> v, fspan |-> f, zspan |-> z] :
-          ts \in ClimTspans, v \in { <<0, 2>>, <<1, 0>> }, f \in { <<>>, <<3, -1>> }, z \in { <<>>, <<10, 5>> } }
+          ts \in ClimTspans, v \in { <<0, 2>>, <<1, 0>> }, f \in { <<>>, <<3, -1>>, <<1, 1>> }, z \in { <<>>, <<10, 5>> } }
 StartClim ==
     \/ \E x \in {-2, -1, 0, 2, 3, 4, NA}, t \in ClimTimes, z \in { <<>>, <<NA>>, <<5>>, <<10>>, <<11>> },
            ms \in { <<>> } \cup { <<m>> : m \in ClimMembers } :
